@@ -10,7 +10,7 @@ SPEC = dict(
     component="transmit",
     props_module="Refinery.Props.C26",
     gen_module="Refinery.Gen.Transmit",
-    quick=dict(cases=160, len=40, shards=8),
+    quick=dict(cases=128, len=40, shards=8),
     thorough=dict(cases=4800, len=60, shards=16),
     nontrivial=nontrivial,
     rule="cases = random schedules of EnqueueEvent / clock advance / Stop on a real DirectTransmission (fake clock, scripted "
